@@ -308,14 +308,14 @@ func c05CaPools(w *World, r *Report) {
 			st := ev.(*ssa.Store)
 			fv := fieldVarOf(st.Addr.(*ssa.FieldAddr))
 			fromPool := false
-			for _, rt := range provenance(e.State.Resolve(st.Val), provOpts{}) {
+			for _, rt := range provInter(e.State.Resolve(st.Val), 0) {
 				if c, ok := rt.(*ssa.Call); ok && isPkgFunc(sCallee(c), "crypto/x509", "NewCertPool") {
 					fromPool = true
 				}
 			}
 			// the pool must be nothing but the configured CA: every origin of the stored value is an empty
 			// pool created here (not the platform pool, a global or a cached pool)
-			for _, rt := range provenance(st.Val, provOpts{}) {
+			for _, rt := range provInter(st.Val, 0) {
 				if c, ok := rt.(*ssa.Call); ok && isPkgFunc(sCallee(c), "crypto/x509", "NewCertPool") {
 					continue
 				}
@@ -339,24 +339,27 @@ func c05CaPools(w *World, r *Report) {
 		}
 	})
 	// only the configured CA is added to a pool in this function
-	for _, c := range callsIn(fn) {
-		f := sCallee(c)
-		if f == nil || f.Pkg() == nil || f.Pkg().Path() != "crypto/x509" || recvNamed(f) == nil || recvNamed(f).Obj().Name() != "CertPool" {
-			continue
-		}
-		switch f.Name() {
-		case "AppendCertsFromPEM", "AddCert", "AddCertWithConstraint":
-			okArg := false
-			for _, rt := range provenance(c.Common().Args[1], provOpts{}) {
-				if ex, ok := rt.(*ssa.Extract); ok && ex.Tuple == ssa.Value(getCa) && ex.Index == 0 {
-					okArg = true
-				} else {
-					okArg = false
-					break
-				}
+	cone := staticCone(fn, 2)
+	for _, g := range cone {
+		for _, c := range callsIn(g) {
+			f := sCallee(c)
+			if f == nil || f.Pkg() == nil || f.Pkg().Path() != "crypto/x509" || recvNamed(f) == nil || recvNamed(f).Obj().Name() != "CertPool" {
+				continue
 			}
-			if !okArg {
-				bad = fmt.Sprintf("%s: certificates other than the configured CA are added to the verification pool", w.Pos(c.Pos()))
+			switch f.Name() {
+			case "AppendCertsFromPEM", "AddCert", "AddCertWithConstraint":
+				okArg := false
+				for _, rt := range provWithCallers(c.Common().Args[1], cone, 0) {
+					if ex, ok := rt.(*ssa.Extract); ok && ex.Tuple == ssa.Value(getCa) && ex.Index == 0 {
+						okArg = true
+					} else {
+						okArg = false
+						break
+					}
+				}
+				if !okArg {
+					bad = fmt.Sprintf("%s: certificates other than the configured CA are added to the verification pool", w.Pos(c.Pos()))
+				}
 			}
 		}
 	}
@@ -650,72 +653,164 @@ type kdfFacts struct {
 	Pos          string
 }
 
-func kdfIn(w *World, fn *ssa.Function) (*kdfFacts, string) {
+func kdfIn(w *World, entry *ssa.Function) (*kdfFacts, string) {
 	var k *kdfFacts
-	for _, c := range callsIn(fn) {
-		f := sCallee(c)
-		if !isPkgFunc(f, "golang.org/x/crypto/pbkdf2", "Key") {
-			continue
-		}
-		args := c.Common().Args
-		k = &kdfFacts{Pos: w.Pos(c.Pos())}
-		k.Iter, _ = constIntVal(args[2])
-		k.KeyLen, _ = constIntVal(args[3])
-		if hf, ok := args[4].(*ssa.Function); ok {
-			k.Hash = hf.String()
-		} else {
-			k.Hash = args[4].String()
-		}
-		// salt scheme: salt derives from (hash.Hash).Sum on a hash fed with the password
-		var parts []string
-		seenPart := map[ssa.Value]bool{}
-		for _, root := range provInter(args[1], 0) {
-			if seenPart[root] {
+	for _, fn := range staticCone(entry, 2) {
+		for _, c := range callsIn(fn) {
+			f := sCallee(c)
+			if !isPkgFunc(f, "golang.org/x/crypto/pbkdf2", "Key") {
 				continue
 			}
-			seenPart[root] = true
-			if cc, ok := root.(*ssa.Call); ok {
-				if sf := sCallee(cc); sf != nil {
-					parts = append(parts, sf.Name())
-					if cc.Call.IsInvoke() {
-						for _, hr := range provenance(cc.Call.Value, provOpts{}) {
-							if hc, ok := hr.(*ssa.Call); ok && sCallee(hc) != nil {
-								parts = append(parts, sCallee(hc).FullName())
+			// the calls that reach the deriving function from the entry's cone (the entry itself when it derives in place)
+			var sites []*ssa.Call
+			if fn != entry {
+				for _, g := range staticCone(entry, 2) {
+					for _, c2 := range callsIn(g) {
+						if cv, ok := c2.(*ssa.Call); ok && cv.Call.StaticCallee() == fn {
+							sites = append(sites, cv)
+						}
+					}
+				}
+			}
+			args := c.Common().Args
+			k = &kdfFacts{Pos: w.Pos(c.Pos())}
+			constArg := func(v ssa.Value) int64 {
+				if x, ok := constIntVal(v); ok {
+					return x
+				}
+				// a parameter of the deriving helper: the constant every call site passes
+				if i := paramIndex(fn, v); i >= 0 && len(sites) > 0 {
+					first, same := int64(-1), true
+					for n, cs := range sites {
+						x, ok := constIntVal(cs.Call.Args[i])
+						if !ok || (n > 0 && x != first) {
+							same = false
+						}
+						first = x
+					}
+					if same {
+						return first
+					}
+				}
+				return -1
+			}
+			k.Iter = constArg(args[2])
+			k.KeyLen = constArg(args[3])
+			if hf, ok := args[4].(*ssa.Function); ok {
+				k.Hash = hf.String()
+			} else {
+				k.Hash = args[4].String()
+			}
+			// salt scheme: salt derives from (hash.Hash).Sum on a hash fed with the password
+			var parts []string
+			seenPart := map[ssa.Value]bool{}
+			var saltRoots []ssa.Value
+			for _, root := range provInter(args[1], 0) {
+				if i := paramIndex(fn, root); i >= 0 && len(sites) > 0 {
+					for _, cs := range sites {
+						saltRoots = append(saltRoots, provInter(cs.Call.Args[i], 0)...)
+					}
+					continue
+				}
+				saltRoots = append(saltRoots, root)
+			}
+			for _, root := range saltRoots {
+				if seenPart[root] {
+					continue
+				}
+				seenPart[root] = true
+				if cc, ok := root.(*ssa.Call); ok {
+					if sf := sCallee(cc); sf != nil {
+						parts = append(parts, sf.Name())
+						if cc.Call.IsInvoke() {
+							for _, hr := range provenance(cc.Call.Value, provOpts{}) {
+								if hc, ok := hr.(*ssa.Call); ok && sCallee(hc) != nil {
+									parts = append(parts, sCallee(hc).FullName())
+								}
+							}
+						}
+					}
+				} else if cst, ok := root.(*ssa.Const); ok {
+					if cst.Value == nil {
+						continue // the zero value of the salt variable before a password is seen
+					}
+					parts = append(parts, "const:"+cst.String())
+				}
+			}
+			sort.Strings(parts)
+			k.SaltScheme = strings.Join(parts, ",")
+			// constructor applied to the key
+			key := c.(*ssa.Call)
+			passedIn := func(g *ssa.Function, blk ssa.Value, except ssa.CallInstruction) bool {
+				for _, c3 := range callsIn(g) {
+					if c3 == except {
+						continue
+					}
+					for _, a3 := range c3.Common().Args {
+						for _, rt := range provenance(a3, provOpts{}) {
+							if rt == blk {
+								return true
 							}
 						}
 					}
 				}
-			} else if cst, ok := root.(*ssa.Const); ok {
-				if cst.Value == nil {
-					continue // the zero value of the salt variable before a password is seen
-				}
-				parts = append(parts, "const:"+cst.String())
+				return false
 			}
-		}
-		sort.Strings(parts)
-		k.SaltScheme = strings.Join(parts, ",")
-		// constructor applied to the key
-		key := c.(*ssa.Call)
-		for _, c2 := range callsIn(fn) {
-			for _, a := range c2.Common().Args {
-				if a == ssa.Value(key) {
-					if f2 := sCallee(c2); f2 != nil {
-						k.Ctor = f2.FullName()
-						// is the constructed block passed on (to a func-typed parameter call or kcp function)?
-						if cv, ok := c2.(*ssa.Call); ok {
-							var blk ssa.Value
-							for _, ref := range *cv.Referrers() {
-								if ex, ok := ref.(*ssa.Extract); ok && ex.Index == 0 {
-									blk = ex
+			for _, c2 := range callsIn(fn) {
+				for _, a := range c2.Common().Args {
+					if a != ssa.Value(key) {
+						continue
+					}
+					f2 := sCallee(c2)
+					if f2 == nil {
+						continue
+					}
+					k.Ctor = f2.FullName()
+					// is the constructed block passed on (to a func-typed parameter call or kcp function)?
+					cv, ok := c2.(*ssa.Call)
+					if !ok {
+						continue
+					}
+					var blk ssa.Value
+					for _, ref := range *cv.Referrers() {
+						if ex, ok := ref.(*ssa.Extract); ok && ex.Index == 0 {
+							blk = ex
+						}
+					}
+					if blk == nil {
+						continue
+					}
+					if passedIn(fn, blk, c2) {
+						k.BlockPassed = true
+					}
+					// returned by the deriving helper and passed on by its caller
+					for _, b := range fn.Blocks {
+						ret, ok := b.Instrs[len(b.Instrs)-1].(*ssa.Return)
+						if !ok {
+							continue
+						}
+						for ri, res := range ret.Results {
+							returned := false
+							for _, rt := range provenance(res, provOpts{}) {
+								if rt == blk {
+									returned = true
 								}
 							}
-							for _, c3 := range callsIn(fn) {
-								for _, a3 := range c3.Common().Args {
-									for _, rt := range provenance(a3, provOpts{}) {
-										if rt == blk && c3 != c2 {
-											k.BlockPassed = true
+							if !returned {
+								continue
+							}
+							for _, cs := range sites {
+								var got ssa.Value = cs
+								if len(ret.Results) > 1 {
+									got = nil
+									for _, ref := range *cs.Referrers() {
+										if ex, ok := ref.(*ssa.Extract); ok && ex.Index == ri {
+											got = ex
 										}
 									}
+								}
+								if got != nil && passedIn(cs.Parent(), got, cs) {
+									k.BlockPassed = true
 								}
 							}
 						}
@@ -1247,7 +1342,6 @@ func c05RoleConfig(w *World, r *Report) {
 	sort.Strings(bad)
 	r.Check(len(bad) == 0 && n > 0, "R05.10", "managers:cert.TlsConfig", "-", fmt.Sprintf("%d value(s) boxed as certificate manager, none of the role-less base type", n), strings.Join(bad, "; ")+mapStr(n == 0, "no certificate manager value found"))
 }
-
 
 // c05RequirementSurvivesConfigError: R05.11 — the requirement flag(s) R05.8 relies on are zero (= "no
 // requirement") until stored. In every handshake function that asks the manager for its TLS configuration
